@@ -62,7 +62,40 @@ def check_buffer(content, boundary, chunk_size):
     return []
 
 
+def check_buffer_body(body, boundary, chunk_size):
+    """the same monitor on a raw body (long padding after a delimiter, long header block, long preamble / epilogue)"""
+    from baize.multipart import MultipartDecoder, NeedData, Epilogue
+    d = MultipartDecoder(boundary, "utf8")
+    worst = 0
+    try:
+        for i in range(0, len(body), chunk_size):
+            d.receive_data(body[i:i + chunk_size])
+            while True:
+                ev = d.next_event()
+                if isinstance(ev, (NeedData, Epilogue)):
+                    break
+            worst = max(worst, len(d.buffer))
+    except Exception as e:  # noqa
+        return ["decoder raised %r" % e]
+    bound = chunk_size + len(boundary) + 8
+    if worst > bound:
+        return ["%d bytes buffered, bound is %d (chunk %d + delimiter %d + 8)" % (worst, bound, chunk_size, len(boundary))]
+    return []
+
+
+def raw_bodies(n):
+    part = b'Content-Disposition: form-data; name="a"\r\n\r\nv'
+    return {
+        "padding-after-delimiter": b"--bnd\r\n" + part + b"\r\n--bnd" + b" " * n + b"\r\n" + part + b"\r\n--bnd--\r\n",
+        "long-header-block": b"--bnd\r\nX-Junk: " + b"j" * n + b"\r\n" + part + b"\r\n--bnd--\r\n",
+        "long-preamble": b"p" * n + b"\r\n--bnd\r\n" + part + b"\r\n--bnd--\r\n",
+        "long-epilogue": b"--bnd\r\n" + part + b"\r\n--bnd--\r\n" + b"e" * n,
+    }
+
+
 def replay(inputs):
+    if inputs["kind"] == "raw":
+        return {"violated": check_buffer_body(raw_bodies(inputs["n"])[inputs["shape"]], b"bnd", inputs["chunk"])}
     if inputs["kind"] == "buffer":
         return {"violated": check_buffer(inputs["lead"].encode("latin-1") + b"x" * inputs["n"], inputs["boundary"].encode("latin-1"), inputs["chunk"])}
     parts = [(p[0], p[1], p[2], p[3].encode("latin-1")) for p in inputs["parts"]]
@@ -112,9 +145,18 @@ def bounded(tier, seed):
                 if v and len([f for f in failures if f["inputs"].get("region") == region]) < 3:
                     failures.append({"inputs": {"kind": "buffer", "lead": lead.decode("latin-1"), "n": n, "boundary": "bnd", "chunk": chunk,
                                                 "region": region}, "violated": v})
+    for shape in ("padding-after-delimiter", "long-header-block", "long-preamble", "long-epilogue"):
+        for n in sizes[:2]:
+            evals += 1
+            v = check_buffer_body(raw_bodies(n)[shape], b"bnd", 64)
+            distinct.add(("raw", shape, n))
+            region = "unbounded-buffering-outside-part-data" if v and "buffered" in v[0] else None
+            if v and len([f for f in failures if f["inputs"].get("region") == region]) < 3:
+                failures.append({"inputs": {"kind": "raw", "shape": shape, "n": n, "chunk": 64, "region": region}, "violated": v})
     return {"evaluations": evals, "distinct_nontrivial": len(distinct), "failures": failures, "samples": samples,
             "rule": "five forms (0..3 parts, fields and files) x max_form_parts in {n-1, n, n+1} x max_form_memory_size in {B-1, B, B+1, "
                     "None} x chunkings (one chunk, byte-at-a-time, empty chunks, seeded 2-cut ones) through the sync and the async "
                     "helper; buffer monitor: after every next_event len(buffer) <= chunk + len(boundary) + 8 for file parts that "
-                    "start with '', CR, LF, 'ab\\\\r', CRLF- followed by 1 KiB .. 1 MiB without a line break",
+                    "start with '', CR, LF, 'ab\\\\r', CRLF- followed by 1 KiB .. 1 MiB without a line break, and for raw bodies with long padding "
+                    "after a delimiter, a long header block, a long preamble, a long epilogue",
             "exhaustive": False}
